@@ -66,6 +66,10 @@ MUTANTS = [
     ("c06-delay-le", A, "if next := lastMulticast.Add(a.minDelayBetweenRAs); next.After(now) {", "if next := lastMulticast.Add(a.minDelayBetweenRAs - time.Millisecond); next.After(now) {", []),  # the plan only: since F14 the spacing is also enforced at transmission time, so C06 still holds (extra or later RAs are allowed)
     ("c06-last-not-updated", A, "\t\tlastMulticast = now.Add(delay)\n", "\t\tif delay > 0 {\n\t\t\tlastMulticast = now.Add(delay)\n\t\t}\n", []),  # the plan only: since F14 the spacing is also enforced at transmission time, so C06 still holds (extra or later RAs are allowed)
     # C07
+    ("c07-const-radelay", A, "maxRADelay            = 500 * time.Millisecond", "maxRADelay            = 5000 * time.Millisecond", ["C07"]),
+    ("c05-const-initial-interval", A, "maxInitialAdvInterval = 16 * time.Second", "maxInitialAdvInterval = 60 * time.Second", ["C05"]),
+    ("c05-const-initial-count", A, "maxInitialAdv         = 3", "maxInitialAdv         = 2", ["C05"]),
+    ("c06-const-mindelay", A, "minDelayBetweenRAs    = 3 * time.Second", "minDelayBetweenRAs    = 2 * time.Second", ["C06"]),
     ("c07-fixed-delay", A, "delay := time.Duration(prng.Int63n(maxRADelay.Nanoseconds())) * time.Nanosecond", "delay := maxRADelay + time.Duration(prng.Int63n(2))", ["C07"]),
     ("c07-drop-when-full", A, "\t\t\tif ip.IsValid() {\n\t\t\t\tipC <- ip\n\t\t\t}", "\t\t\tif ip.IsValid() {\n\t\t\t\tselect {\n\t\t\t\tcase ipC <- ip:\n\t\t\t\tdefault:\n\t\t\t\t}\n\t\t\t}", ["C07"]),
     ("c07-count-before-send", A, "\ttyp := \"unicast\"\n\tif ip.IsMulticast() {", "\ttyp := \"unicast\"\n\tif !ip.Is6() {", ["C07"]),
